@@ -74,6 +74,24 @@ func famReads(f *FamCtx) {
 	f.Gen = func() Case { return genReadsCase(f.Rand, RandCfg(f.Rand)) }
 	n := f.N(250, 10000)
 	for i := 0; i < n; i++ {
+		if i%10 == 9 {
+			// a version in the shape an earlier release (or an interrupted Delete) leaves — an
+			// entry-less top node over a child — opened and read with the reads counted
+			c := genInterruptedDeleteCase(f.Rand, RandCfg(f.Rand))
+			var ops []string
+			for _, op := range c.Ops {
+				t := strings.Fields(op)
+				switch t[0] {
+				case "load", "get", "clone":
+					ops = append(ops, t[0]+"l "+strings.Join(t[1:], " "))
+				default:
+					ops = append(ops, op)
+				}
+			}
+			c.Ops = ops
+			f.RunTreeCase(c, faultRunner, multiLevel)
+			continue
+		}
 		if i%8 == 7 {
 			// the same calls with every read position failing in turn: a call that fails because a
 			// read failed has made no more reads than the bound allows (and a retry gives the result)
